@@ -605,7 +605,15 @@ func checkScopeTruthTable(c *Ctx, r *Report, rule string, fn *ssa.Function, fCom
 func checkMemoryFileTypestate(c *Ctx, r *Report, pkg string) {
 	tFile, tBlob, tStore := pkg+".File", pkg+".blob", pkg+".store"
 	r7 := r.Rule("R7", "E-ORDER(typestate)", "File loads *data only inside getData; every caller of getData tests its 'evicted' result and leaves before using the buffer; the shared slice header is written only under sliceMu in write mode", 6)
-	gd := r.MustFunc(r7, "(*"+tFile+").getData")
+	// getData is optional: a File method may also load the slice itself, if it then
+	// uses the loaded value only on its non-nil side
+	gd := c.Func("(*" + tFile + ").getData")
+	nLoads := 0
+	defer func() {
+		if gd == nil && nLoads == 0 {
+			r.Unresolved(r7, "no load of File.data found")
+		}
+	}()
 	for _, fn := range c.FuncsIn(pkg) {
 		if c.isFixture(fn) {
 			continue
@@ -620,7 +628,35 @@ func checkMemoryFileTypestate(c *Ctx, r *Report, pkg string) {
 			if !ok || inner.Op != token.MUL || !isFieldRef(inner.X, tFile+".data") {
 				return
 			}
-			r.Check(gd != nil && fn == gd, r7, fn, "load *File.data", u, "only in getData", "the shared slice is read outside getData: the evicted (nil) state is not checked on that path")
+			nLoads++
+			if gd != nil && fn == gd {
+				r.OK(r7, fn, "load *File.data", u, true, "in getData")
+				return
+			}
+			// loaded in place: every use other than the nil test itself is on the non-nil side
+			local := true
+			for _, rf := range *u.Referrers() {
+				if _, isDbg := rf.(*ssa.DebugRef); isDbg {
+					continue
+				}
+				if b, isB := rf.(*ssa.BinOp); isB && (b.Op == token.EQL || b.Op == token.NEQ) && (isNilConst(b.X) || isNilConst(b.Y)) {
+					continue
+				}
+				if !guardedBy(rf, func(cond ssa.Value, val bool) int {
+					b, isB := cond.(*ssa.BinOp)
+					if !isB || (b.Op != token.EQL && b.Op != token.NEQ) {
+						return 0
+					}
+					if !((b.X == ssa.Value(u) && isNilConst(b.Y)) || (b.Y == ssa.Value(u) && isNilConst(b.X))) {
+						return 0
+					}
+					nonNil := (b.Op == token.NEQ) == val
+					return tern(nonNil, 1, -1)
+				}) {
+					local = false
+				}
+			}
+			r.Check(local, r7, fn, "load *File.data", u, "in getData, or used only on its non-nil side", "the shared slice is read outside getData without leaving on the nil (evicted) side: a stale handle returns stale/empty data instead of the evicted error")
 		})
 	}
 	if gd != nil {
